@@ -1,6 +1,7 @@
 CONSTANTS NK = 4  NM = 2  MaxPasses = 3
           Shapes <- ShapesQ  Coins <- CoinsD  HashTypes <- HTd  Passes <- DeepPasses  KcAdds <- NoKcAdds
+CONSTANT Edits <- FewEdits
 SPECIFICATION Spec
 INVARIANTS TypeOK ValidIff SignedSane NeverValidWithFewKeys Confluence ValidDependsOnUnionOnly
-PROPERTIES Monotone ValidUntouched FrameKept UnaskedUntouched
+PROPERTIES Monotone ValidUntouched FrameKept UnaskedUntouched EditOnlyLoses
 CHECK_DEADLOCK FALSE
